@@ -101,6 +101,7 @@ type pathState struct {
 	summaries, summaryPaths     int
 	lazy                        []*smt.Term
 	keys, keygens, signs, rands int
+	mapRanges                   int // nondeterministic map iteration orders drawn on this path
 	asn1Memo                    map[string]asn1MemoEntry
 	asn1Inverse                 int
 	hashApps                    []hashApp
